@@ -34,9 +34,13 @@ func runStoreLag(args []string) error {
 	for _, sso := range []bool{false, true} {
 		for _, inact := range []time.Duration{0, 10 * time.Minute} {
 			for _, tau := range []int64{600, 7200} { // token lifetime shorter / longer than what is left of the session
-				for _, after := range []string{"end", "inactivity", "end-idle"} {
+				for _, after := range []string{"end", "inactivity", "end-idle", "inactivity-no-refresh-token"} {
 					if after != "end" && inact == 0 {
 						continue
+					}
+					noRT := after == "inactivity-no-refresh-token" // the provider's token response carries no refresh_token (legal): the deadline must still be armed
+					if noRT {
+						after = "inactivity"
 					}
 					synctest.Run(func() {
 						maxlife := time.Hour
@@ -47,6 +51,7 @@ func runStoreLag(args []string) error {
 						}
 						defer s.close()
 						s.idp.tau = tau
+						s.idp.loginNoRT = noRT
 						lr, err := s.login("sid-1", "idporten-loa-high")
 						if err != nil {
 							rerr = err
@@ -87,7 +92,7 @@ func runStoreLag(args []string) error {
 							for j := 0; j < 60 && !th.done; j++ {
 								s.runOne(tid, 0)
 							}
-							b, _ := json.Marshal(map[string]any{"kind": "storelag", "sso": sso, "inactivity_ns": int64(inact), "tau": tau, "after": after, "endpoint": kind,
+							b, _ := json.Marshal(map[string]any{"kind": "storelag", "sso": sso, "inactivity_ns": int64(inact), "tau": tau, "after": after, "no_refresh_token": noRT, "endpoint": kind,
 								"entry_still_in_store": gerr == nil, "outcome": s.outcomeCode(th)})
 							w.Write(b)
 							w.WriteByte('\n')
